@@ -7,6 +7,7 @@ import (
 	"reflect"
 	"regexp"
 	"sort"
+	"strconv"
 	"strings"
 	"testing"
 
@@ -426,11 +427,23 @@ func classify(c Case, msg string) string {
 		if strings.HasSuffix(last.True, ".unq") && fmt.Sprint(v) == "" && last.Class == "breakout" {
 			return "C06-unquoted-attr-empty-value"
 		}
-		if last.True == "md.text" && last.Class == "breakout" && reNumThenDot.MatchString(c.Doc.Src) && reDigits.MatchString(fmt.Sprint(v)) {
+		if last.True == "md.text" && last.Class == "breakout" && reNumThenDot.MatchString(c.Doc.Src) && reDigits.MatchString(shownNumber(v)) {
 			return "C06-md-number-before-dot"
 		}
 	}
 	return ""
+}
+
+// shownNumber is the text a number is shown as: a float with an integral value is shown
+// without exponent (1.2345679e+08 as 123456790), which can form a list marker as well.
+func shownNumber(v any) string {
+	switch x := v.(type) {
+	case float64:
+		return strconv.FormatFloat(x, 'f', -1, 64)
+	case float32:
+		return strconv.FormatFloat(float64(x), 'f', -1, 32)
+	}
+	return fmt.Sprint(v)
 }
 
 var reDigits = regexp.MustCompile(`^[0-9]{1,9}$`)
